@@ -8,6 +8,7 @@ mod dense;
 mod matrix;
 mod solout;
 mod monitors;
+mod runs;
 
 fn main() {
     let args: Vec<String> = std::env::args().collect();
@@ -24,6 +25,10 @@ fn main() {
         "xsolout" => solout::run(rest),
         "event-check" => monitors::events(rest),
         "teval-check" => monitors::teval(rest),
+        "interval-check" => runs::interval(rest),
+        "hostile-check" => runs::hostile(rest),
+        "options-check" => runs::options(rest),
+        "protocol-check" => runs::protocol(rest),
         other => {
             eprintln!("unknown subcommand {other}");
             std::process::exit(2);
